@@ -1,10 +1,13 @@
 #!/bin/bash
 # Full self-regression: quick checks on /repo, every seed must fire, every benign variant must stay quiet.
 cd /verif
+# optional arguments: property ids to restrict to (default: all)
+ONLY=" $* "
+want() { [ "$ONLY" = "  " ] || case "$ONLY" in *" $1 "*) true;; *) false;; esac; }
 echo "== quick checks on /repo"
-for i in $(seq -w 1 43); do c=C$i; [ -f rules/props/$c.py ] && ./check $c 2>&1 | grep -E "VIOLATION|new violations|check:" | grep -v " 0 new violations"; done
+for i in $(seq -w 1 43); do c=C$i; want $c && [ -f rules/props/$c.py ] && ./check $c 2>&1 | grep -E "VIOLATION|new violations|check:" | grep -v " 0 new violations"; done
 echo "== seeds (must fire)"
-for d in seeded/*/ selftest/*/; do n=$(basename $d); pid=${n%%-*}; out=$(tools/try_scratch.sh /verif/$d/patch.diff $pid 2>&1); if echo "$out" | grep -q "VIOLATION property=$pid"; then echo "fires $n"; else echo "MISSED $n"; echo "$out" | tail -2 | cut -c1-200; fi; done
+for d in seeded/*/ selftest/*/; do n=$(basename $d); pid=${n%%-*}; want $pid || continue; out=$(tools/try_scratch.sh /verif/$d/patch.diff $pid 2>&1); if echo "$out" | grep -q "VIOLATION property=$pid"; then echo "fires $n"; else echo "MISSED $n"; echo "$out" | tail -2 | cut -c1-200; fi; done
 echo "== benign (must stay quiet)"
-for d in benign/*/; do n=$(basename $d); pid=${n%%-*}; out=$(tools/try_scratch.sh /verif/$d/patch.diff $pid 2>&1); if echo "$out" | grep -q "VIOLATION\|does not apply\|check:"; then echo "ALARM $n"; echo "$out" | grep "violated\|apply\|check:" | cut -c1-300 | head -3; else echo "quiet $n"; fi; done
+for d in benign/*/; do n=$(basename $d); pid=${n%%-*}; want $pid || continue; out=$(tools/try_scratch.sh /verif/$d/patch.diff $pid 2>&1); if echo "$out" | grep -q "VIOLATION\|does not apply\|check:"; then echo "ALARM $n"; echo "$out" | grep "violated\|apply\|check:" | cut -c1-300 | head -3; else echo "quiet $n"; fi; done
 echo "== done"
